@@ -125,6 +125,68 @@ def run(tier="quick", seed=0):
             table = dress(anyorder, rng)
             res, tgt = run_one(table, False)
             record(table, res, tgt, "anyorder")
+    # (g) several chips in ONE call of minimise_tables: each chip's result must be a correct minimisation of THAT chip's
+    #     table (same patterns and routes on neighbouring chips with different sources, identical tables, different tables,
+    #     one target for all / a target per chip), and a failure must name a chip that really cannot meet its target
+    n_multi = 150 if tier == "quick" else 1500
+    for mi in range(n_multi):
+        n = rng.randint(1, 3)
+        for _try in range(50):
+            combo = rng.sample(pats, n)
+            if not any(intersect(a[0], a[1], b[0], b[1]) for a, b in itertools.combinations(combo, 2)):
+                break
+        else:
+            continue
+        order = list(combo)
+        base = dress(order, rng)
+        chips = {}
+        for ci in range(rng.randint(2, 4)):
+            kind = rng.random()
+            if kind < .45:      # same keys, masks and routes, other sources (a neighbouring chip on the same nets)
+                chips[(ci, 0)] = [RTE(e.route, e.key, e.mask, set(rng.choice(srcs))) for e in base]
+            elif kind < .6:     # identical
+                chips[(ci, 0)] = [RTE(e.route, e.key, e.mask, set(e.sources)) for e in base]
+            else:
+                chips[(ci, 0)] = dress(order if rng.random() < .5 else rng.sample(order, len(order)), rng)
+        per_chip = rng.random() < .3
+        tgt_choice = rng.choice([None, None, 0, 1, len(base)])
+        targets = dict((c, rng.choice([None, 0, 1, len(base)])) for c in chips) if per_chip else tgt_choice
+        ev += 1
+        distinct.add(("multi", tuple(order), len(chips), per_chip))
+        res = None
+        try:
+            out = minimise_tables(dict((c, list(t)) for c, t in chips.items()), targets)
+        except MinimisationFailedError as exc:
+            c = getattr(exc, "chip", None)
+            tg = (targets[c] if per_chip else targets) if c in chips else None
+            if c not in chips or tg is None:
+                res = "minimise_tables raised MinimisationFailedError naming chip %r (target %r)" % (c, tg)
+            else:
+                try:
+                    alone = minimise_table(list(chips[c]), tg)
+                    res = "minimise_tables: MinimisationFailedError names chip %r, whose table minimises to %d entries (target %d) on its own" % (c, len(alone), tg)
+                except MinimisationFailedError:
+                    pass
+            out = None
+        except Exception as e:      # noqa
+            res, out = "minimise_tables raised %s: %s" % (type(e).__name__, e), None
+        if out is not None:
+            for c, t in sorted(chips.items()):
+                new = out.get(c, [])
+                tg = targets[c] if per_chip else targets
+                if tg is not None and len(new) > tg:
+                    res = "minimise_tables: chip %r got %d entries for target %d" % (c, len(new), tg)
+                    break
+                res = check(t, new, "minimise_tables[%d chips] chip %r" % (len(chips), c))
+                if res:
+                    break
+            if not res and set(out) - set(chips):
+                res = "minimise_tables returned tables for chips %r that were not given" % (sorted(set(out) - set(chips)),)
+        if res and len(viol) < 6:
+            viol.append({"id": "multi_%d" % ev, "clause": "routing_changed", "why": res,
+                         "inputs": {"tables": dict(("%d,%d" % c, [[sorted(int(x) for x in e.route), e.key, e.mask, sorted((-1 if s_ is None else int(s_)) for s_ in e.sources)] for e in t]) for c, t in chips.items()),
+                                    "targets": (dict(("%d,%d" % c, v) for c, v in targets.items()) if per_chip else targets)}})
+
     # (d) seeded random tables over 5 bits, generality-ordered, up to 10 entries
     B2 = 5
     F2 = (1 << B2) - 1
@@ -255,6 +317,6 @@ def run(tier="quick", seed=0):
                 record(table, bad, None, "shrink")
         distinct.add(("shrink", tri))
     return {"name": "c04_tables", "evaluations": ev, "distinct_nontrivial": len(distinct),
-            "rule": "the empty table; every orthogonal table over 3 key bits with <= %d entries (x%d random route/source dressings and orders); overlapping tables with <= %d entries in generality order (and in arbitrary order for default-route removal); seeded random generality-ordered tables over 5 bits with 2..10 entries; targets None, 0, len-1, len, len+1; through remove_default_routes.minimise, ordered_covering.minimise, minimise_table, minimise_tables; merges that must be shrunk (three exact 5-bit entries + a generality-3 and a generality-2 entry of other routes, orthogonal: a seeded 2 or 25 percent of 921 600); sequences (tables over 4 bits whose merged output entries reappear below other entries in the next table minimised in the same process); oracle: first match + hardware default routing + sources listed" % (nmax, reps, nmax_o),
+            "rule": "the empty table; every orthogonal table over 3 key bits with <= %d entries (x%d random route/source dressings and orders); overlapping tables with <= %d entries in generality order (and in arbitrary order for default-route removal); seeded random generality-ordered tables over 5 bits with 2..10 entries; targets None, 0, len-1, len, len+1; through remove_default_routes.minimise, ordered_covering.minimise, minimise_table, minimise_tables; merges that must be shrunk (three exact 5-bit entries + a generality-3 and a generality-2 entry of other routes, orthogonal: a seeded 2 or 25 percent of 921 600); several chips in one call of minimise_tables (2-4 chips carrying the same patterns and routes with other sources / identical tables / other tables, one target or a target per chip: each chip's result against its own table, a failure must name a chip that cannot meet its target on its own); sequences (tables over 4 bits whose merged output entries reappear below other entries in the next table minimised in the same process); oracle: first match + hardware default routing + sources listed" % (nmax, reps, nmax_o),
             "bound": "3 key bits exhaustive up to the stated sizes; 5 bits sampled", "exhaustive": False, "label": "bounded",
             "samples": samples, "violations": viol, "seconds": round(time.time() - t0, 2)}
